@@ -280,6 +280,13 @@ func exerciseMethod(t *rapid.T, e routerEntry, mi methodInfo) string {
 	}
 	if rapid.IntRange(0, 2).Draw(t, "fails") == 0 {
 		sc.final = status.Error(codes.Code(rapid.IntRange(1, 16).Draw(t, "code")), rapid.SampledFrom([]string{"boom", "no luck", ""}).Draw(t, "msg"))
+		if rapid.IntRange(0, 5).Draw(t, "plainError") == 3 {
+			// an in-process client (a driver, a wrapped server) need not answer with a status error: a failed read is a
+			// failed call however the error is spelled
+			sc.final = rapid.SampledFrom([]error{
+				fmt.Errorf("read from device: %w", io.EOF), io.ErrUnexpectedEOF, errors.New("device gone"), fmt.Errorf("bus: %w", io.ErrClosedPipe),
+			}).Draw(t, "plainErr")
+		}
 	}
 	for _, n := range registered {
 		c := &fakeConn{name: n, script: sc, out: outType}
